@@ -845,6 +845,49 @@ fn mpmc_cancel_vs_receive_cap1() {
     mpmc_cancel_vs_receive(1)
 }
 
+/// close() races with a consumer that abandons its parked receive and with a parked sender that is cancelled
+fn mpmc_close_vs_abandon() {
+    let (tx, rx) = sh::generic_channel::<LoomRaw, u32, FixedHeapBuf<u32>>(1);
+    let _ = rx.try_receive();
+    let mut r1 = Box::pin(rx.receive());
+    let mut r2 = Box::pin(rx.receive());
+    let (w1, _c1) = counting_waker();
+    let (w2, c2) = counting_waker();
+    assert!(r1.as_mut().poll(&mut Context::from_waker(&w1)).is_pending());
+    assert!(r2.as_mut().poll(&mut Context::from_waker(&w2)).is_pending());
+    let h1 = loom::thread::spawn(move || drop(r1));
+    let tx2 = tx.clone();
+    let h2 = loom::thread::spawn(move || {
+        let _ = tx2.close();
+    });
+    h1.join().unwrap();
+    h2.join().unwrap();
+    assert!(c2.load(Ordering::SeqCst) > 0, "C11: close() did not wake a pending receiver");
+    assert_eq!(r2.as_mut().poll(&mut Context::from_waker(&w2)), Poll::Ready(None), "C11: receive on a closed, empty channel must yield None");
+    drop(tx);
+}
+
+/// two threads close the channel: once close() has returned (with either status) on a thread,
+/// a send from that thread must fail
+fn mpmc_double_close() {
+    let (tx, rx) = sh::generic_channel::<LoomRaw, u32, FixedHeapBuf<u32>>(2);
+    let _ = rx.try_receive();
+    let hs: Vec<_> = (0..2u32)
+        .map(|i| {
+            let tx = tx.clone();
+            loom::thread::spawn(move || {
+                let _ = tx.close();
+                assert!(tx.try_send(i).is_err(), "C11: a send succeeded after close() had returned");
+            })
+        })
+        .collect();
+    for h in hs {
+        h.join().unwrap();
+    }
+    assert!(tx.try_send(9).is_err(), "C11: close is permanent");
+    let _keep = rx;
+}
+
 /// cap 1: value 1 buffered, send(2) parked; a receive races with try_send(3): 2 took effect before 3
 fn mpmc_refill_race() {
     let (tx, rx) = sh::generic_channel::<LoomRaw, u32, FixedHeapBuf<u32>>(1);
@@ -1202,6 +1245,63 @@ fn state_followers() {
     }
 }
 
+/// send() races with a follower that abandons its parked receive; another follower must get the state
+fn state_send_vs_abandon() {
+    let c = Arc::new(GenericStateBroadcastChannel::<LoomRaw, u32>::new());
+    let _ = c.try_receive(StateId::new());
+    let cr: &'static GenericStateBroadcastChannel<LoomRaw, u32> = unsafe { &*(&*c as *const GenericStateBroadcastChannel<LoomRaw, u32>) };
+    let mut r1 = Box::pin(cr.receive(StateId::new()));
+    let mut r2 = Box::pin(cr.receive(StateId::new()));
+    let (w1, _c1) = counting_waker();
+    let (w2, c2) = counting_waker();
+    assert!(r1.as_mut().poll(&mut Context::from_waker(&w1)).is_pending());
+    assert!(r2.as_mut().poll(&mut Context::from_waker(&w2)).is_pending());
+    let keep = c.clone();
+    let h1 = loom::thread::spawn(move || {
+        drop(r1);
+        let _ = &keep;
+    });
+    let c2h = c.clone();
+    let h2 = loom::thread::spawn(move || {
+        c2h.send(7).unwrap();
+    });
+    h1.join().unwrap();
+    h2.join().unwrap();
+    assert!(c2.load(Ordering::SeqCst) > 0, "C13: send() did not wake a pending receiver");
+    match r2.as_mut().poll(&mut Context::from_waker(&w2)) {
+        Poll::Ready(Some((_, 7))) => {}
+        other => panic!("C13: the pending receiver must get the published state, got {:?}", other.map(|o| o.map(|x| x.1))),
+    }
+    drop(r2);
+}
+
+/// oneshot broadcast: send() races with a receiver that abandons its parked receive
+fn bcast_send_vs_abandon() {
+    let c = Arc::new(GenericOneshotBroadcastChannel::<LoomRaw, u32>::new());
+    let _ = poll_once_and_drop(c.receive());
+    let cr: &'static GenericOneshotBroadcastChannel<LoomRaw, u32> = unsafe { &*(&*c as *const GenericOneshotBroadcastChannel<LoomRaw, u32>) };
+    let mut r1 = Box::pin(cr.receive());
+    let mut r2 = Box::pin(cr.receive());
+    let (w1, _c1) = counting_waker();
+    let (w2, c2) = counting_waker();
+    assert!(r1.as_mut().poll(&mut Context::from_waker(&w1)).is_pending());
+    assert!(r2.as_mut().poll(&mut Context::from_waker(&w2)).is_pending());
+    let keep = c.clone();
+    let h1 = loom::thread::spawn(move || {
+        drop(r1);
+        let _ = &keep;
+    });
+    let c2h = c.clone();
+    let h2 = loom::thread::spawn(move || {
+        let _ = c2h.send(7);
+    });
+    h1.join().unwrap();
+    h2.join().unwrap();
+    assert!(c2.load(Ordering::SeqCst) > 0, "C12: send() did not wake a pending receiver");
+    assert_eq!(r2.as_mut().poll(&mut Context::from_waker(&w2)), Poll::Ready(Some(7)), "C12: every receiver gets the value");
+    drop(r2);
+}
+
 /// state 1 is published; try_receive races with the next send: it must yield a state
 fn state_try_receive_contended() {
     let c = Arc::new(GenericStateBroadcastChannel::<LoomRaw, u32>::new());
@@ -1292,6 +1392,10 @@ fn timer_abandon() {
 }
 
 const SCENARIOS: &[(&str, &str, Scenario)] = &[
+    ("mpmc_close_vs_abandon", "C01,C11", mpmc_close_vs_abandon),
+    ("mpmc_double_close", "hook:C11", mpmc_double_close),
+    ("state_send_vs_abandon", "C01,C13", state_send_vs_abandon),
+    ("bcast_send_vs_abandon", "C01,C12", bcast_send_vs_abandon),
     ("mutex_fair_order", "C04", mutex_fair_order),
     ("sem_fair_order", "C07", sem_fair_order),
     ("event_set_vs_reset", "C14", event_set_vs_reset),
